@@ -5,6 +5,7 @@ import (
 
 	"github.com/jcmturner/gofork/encoding/asn1"
 	"github.com/jcmturner/gokrb5/v8/crypto/etype"
+	"github.com/jcmturner/gokrb5/v8/iana/etypeID"
 )
 
 // Reference: https://www.ietf.org/rfc/rfc4120.txt
@@ -66,6 +67,11 @@ func GenerateEncryptionKey(etype etype.EType) (EncryptionKey, error) {
 	_, err := rand.Read(b)
 	if err != nil {
 		return k, err
+	}
+	if etype.GetETypeID() == etypeID.DES3_CBC_SHA1_KD {
+		// A DES3 protocol key is the result of random-to-key over 168 random bits (RFC 3961 section 6.3.1).
+		// Other values have wrong parity bits or may be weak keys and are refused by other implementations.
+		b = etype.RandomToKey(b[:etype.GetKeySeedBitLength()/8])
 	}
 	k.KeyValue = b
 	return k, nil
